@@ -241,6 +241,18 @@ def _add_pos(b, off):
     return b + off
 
 
+def _add_where_out(x):
+    import numpy as np
+    import dask_array as da
+    z = da.from_array(np.full(tuple(int(n) for n in x.shape), -1.0), chunks=x.chunks)
+    return da.add(x, x, where=(x % 3 == 0), out=z)
+
+
+def _np_add_where_out(a):
+    import numpy as np
+    return np.add(a, a, where=(a % 3 == 0), out=np.full(a.shape, -1.0))
+
+
 def rewrite_targets(tier, rng):
     """compositions chosen to make the optimiser's rewrite rules fire (slice / rechunk / shuffle pushdowns,
     nested-op fusion, sliding-window substitution, chunk unification, rechunk-into-IO): (name, build)"""
@@ -310,6 +322,12 @@ def rewrite_targets(tier, rng):
         "expand_dims(x,0).rechunk((1,2,3))": (lambda x: da.expand_dims(x, 0).rechunk((1, 2, 3)), lambda a: np.expand_dims(a, 0)),
         "x[::-1, ::-1][1:3]": (lambda x: x[::-1, ::-1][1:3], lambda a: a[::-1, ::-1][1:3]),
         "tensordot(x, x.T)": (lambda x: da.tensordot(x, x.T, axes=1), lambda a: np.tensordot(a, a.T, axes=1)),
+        # ufuncs with array-valued where= / out=: a slice pushed through the elemwise node must slice those operands too
+        "add(x,x,where=m,out=z)[1:4, 1:3]": (lambda x: _add_where_out(x)[1:4, 1:3], lambda a: _np_add_where_out(a)[1:4, 1:3]),
+        "add(x,x,where=m,out=z)[2]": (lambda x: _add_where_out(x)[2], lambda a: _np_add_where_out(a)[2]),
+        "add(x,x,where=m,out=z)[:, 1]": (lambda x: _add_where_out(x)[:, 1], lambda a: _np_add_where_out(a)[:, 1]),
+        "add(x,x,where=m,out=z)[::2]": (lambda x: _add_where_out(x)[::2], lambda a: _np_add_where_out(a)[::2]),
+        "add(x,x,where=m,out=z).rechunk((2,4))": (lambda x: _add_where_out(x).rechunk((2, 4)), lambda a: _np_add_where_out(a)),
     }
     # overlap computations followed by slices near and away from the edges (reference: the raw, unoptimised form)
     def halo(depth):
